@@ -90,6 +90,73 @@ def linear_step(ctx, rng, idx):
     ctx.nontrivial("lin", iname, cfl, localdt, s.desc())
 
 
+class _MatDisc:
+    """dQ/dt = A Q with an arbitrary matrix (no mesh behind it); the result is handed out as fresh arrays or in ONE work buffer
+    that is overwritten at every call -- both are ordinary ways to write a right-hand side"""
+    def __init__(self, A, buffer):
+        self.A, self.buffer, self._buf, self.ncall = A, buffer, None, 0
+
+    def rhs(self, f):
+        self.ncall += 1
+        r = self.A @ f.data[0]
+        if not self.buffer:
+            return [r]
+        if self._buf is None:
+            self._buf = [r.copy()]
+        else:
+            self._buf[0][...] = r
+        return self._buf
+
+
+@group(quick=300, thorough=10000)
+def matrix_step(ctx, rng, idx):
+    """the statement itself: dQ/dt = A Q for a random dissipative-or-neutral matrix A (not a discretisation), any field, any dt"""
+    from .c05 import _Mesh, _Model
+    iname = ["implicit", "cranknicolson", "gear", "backwardeuler", "trapezoidal"][idx % 5]
+    n = int(rng.integers(1, 9))
+    S = rng.uniform(-1, 1, (n, n)); K = rng.uniform(-1, 1, (n, n))
+    A = -(S @ S.T) * float(rng.choice([0.0, 1.0, 1.0])) + (K - K.T)        # Re(eigenvalues) <= 0: (I - theta dt A) is well conditioned
+    if not np.any(A):
+        A = -np.eye(n)
+    z = float(rng.choice([0.01, 0.1, 1.0, 10.0, 10 ** rng.uniform(-2, 1.5)]))
+    dt = z / (np.linalg.norm(A, 2) + 1e-300)
+    model = _Model(); model.islinear = int(rng.integers(2))
+    buffer = bool(rng.random() < 0.5)
+    disc = _MatDisc(A, buffer)
+    mesh = _Mesh(n)
+    Q0 = rng.uniform(-1, 1, n) * float(10 ** rng.uniform(-3, 3))
+    f = ffield.fdata(model, mesh, [Q0.copy()], t=float(rng.uniform(-1, 1)))
+    t0 = f.time
+    ctx.describe(integrator=iname, A=A, dt=dt, dt_times_norm_A=z, Q0=Q0, model_islinear=model.islinear, rhs_returns="one work buffer overwritten at every call" if buffer else "fresh arrays")
+    solver = gen.integ(iname)(mesh, disc)
+    solver.step(f, dt)
+    cls = "step:" + iname
+    I = np.eye(n)
+    sc = np.max(np.abs(Q0)) * (1 + z) + 1e-300
+    th = THETA.get(iname, 0.5)
+    exp1 = np.linalg.solve(I - th * dt * A, (I + (1 - th) * dt * A) @ Q0)
+    ctx.close("matrix-step", np.max(np.abs(f.data[0] - exp1)) / sc, TOL_STEP, "matrix-step/%s/%s" % (iname, "not-theta-scheme" if iname != "gear" else "first-step-not-cranknicolson"),
+              {"max diff": np.max(np.abs(f.data[0] - exp1)), "rhs returns": "buffer" if buffer else "fresh"}, cls=cls)
+    ctx.close("matrix-step", abs(f.time - t0 - dt) / dt, 1e-9 * max(1.0, abs(t0) / dt), "matrix-step/%s/time-advance" % iname, None, cls=cls)
+    ctx.true("matrix-step", np.array_equal(disc.A, A), "matrix-step/%s/operator-modified" % iname, None, cls=cls)
+    if iname == "gear":
+        prev = f.data[0].copy(); dprev = prev - Q0
+        for k in range(3):
+            solver.step(f, dt)
+            new = f.data[0].copy()
+            expd = np.linalg.solve(1.5 * I - dt * A, dt * (A @ prev) + 0.5 * dprev)
+            ctx.close("matrix-step", np.max(np.abs((new - prev) - expd)) / ((np.max(np.abs(prev)) + np.max(np.abs(dprev))) * (1 + z) + 1e-300), TOL_STEP, "matrix-step/gear/not-bdf2-recurrence", {"k": k, "rhs returns": "buffer" if buffer else "fresh"}, cls=cls)
+            dprev, prev = new - prev, new
+    else:
+        # a second step from the new state with another dt on the same object
+        dt2 = dt * float(rng.choice([0.5, 2.0, 1.0]))
+        Q1 = f.data[0].copy()
+        solver.step(f, dt2)
+        exp2 = np.linalg.solve(I - th * dt2 * A, (I + (1 - th) * dt2 * A) @ Q1)
+        ctx.close("matrix-step", np.max(np.abs(f.data[0] - exp2)) / (np.max(np.abs(Q1)) * (1 + 2 * z) + 1e-300), TOL_STEP, "matrix-step/%s/second-step-not-theta-scheme" % iname, {"rhs returns": "buffer" if buffer else "fresh"}, cls=cls)
+    ctx.nontrivial("matrix", iname, n, z, buffer, model.islinear, Q0[:3])
+
+
 @group(quick=300, thorough=10000)
 def no_growth(ctx, rng, idx):
     """uniform periodic mesh (normal operator, Re(lambda) <= 0): the 2-norm never grows, whatever the CFL number"""
